@@ -80,23 +80,32 @@ func (P *Program) registerTime() {
 		}
 		return timeVal{in.C.BVAdd(sec(args[0]), in.C.BVConstI(d.I64()/1_000_000_000, 64))}
 	})
+	dur := func(in *Interp, diff *smt.Term) *smt.Term {
+		d := in.C.BVMul(diff, in.C.BVConstI(1_000_000_000, 64))
+		if !d.IsConst() {
+			if in.secDur == nil {
+				in.secDur = map[*smt.Term]*smt.Term{}
+			}
+			in.secDur[d] = diff
+		}
+		return d
+	}
 	P.reg(T+"Sub", func(fr *frame, args []value) value {
 		in := fr.in
-		diff := in.C.BVSub(sec(args[0]), sec(args[1]))
-		return in.C.BVMul(diff, in.C.BVConstI(1_000_000_000, 64))
+		return dur(in, in.C.BVSub(sec(args[0]), sec(args[1])))
 	})
 	P.reg(T+"String", func(fr *frame, args []value) value { return fr.in.freshOpq() })
 	P.reg(T+"Format", func(fr *frame, args []value) value { return fr.in.freshOpq() })
 	P.reg("time.Since", func(fr *frame, args []value) value {
 		in := fr.in
 		now := in.call(fr, 0, &native{fn: in.P.intrinsics["time.Now"]}, nil).(timeVal)
-		return in.C.BVMul(in.C.BVSub(now.sec, sec(args[0])), in.C.BVConstI(1_000_000_000, 64))
+		return dur(in, in.C.BVSub(now.sec, sec(args[0])))
 	})
 	P.reg(VH+".Now", P.intrinsics["time.Now"])
 	P.reg("time.Until", func(fr *frame, args []value) value {
 		in := fr.in
 		now := in.call(fr, 0, &native{fn: in.P.intrinsics["time.Now"]}, nil).(timeVal)
-		return in.C.BVMul(in.C.BVSub(sec(args[0]), now.sec), in.C.BVConstI(1_000_000_000, 64))
+		return dur(in, in.C.BVSub(sec(args[0]), now.sec))
 	})
 	P.reg("time.Sleep", func(fr *frame, args []value) value { return nil })
 	P.reg("(time.Duration).String", func(fr *frame, args []value) value { return fr.in.freshOpq() })
